@@ -29,6 +29,9 @@ def run(repo, R):
     R.rule("MPT", "every returned block of the moment kernel is derived from the recursion (no data-dependent shortcut)")
     from .mpt import must_pass_through
     must_pass_through(repo, R, repo.func(MOMENT))
+    R.rule("S0", "base entry of the shared overlap/moment table is the 1-D Gaussian product integral")
+    R.rule("Sa", "Obara-Saika step on the first index: M[i] = (P-A) M[i-1] + (i-1)/(2p) M[i-2]")
+    R.rule("Sb", "Obara-Saika step on the second index with the coupling i/(2p) M[i-1, j-1]")
     R.rule("Se", "moment-order step: M[e] = (P-C) M[e-1] + (i M[e-1,i-1] + j M[e-1,j-1] + (e-1) M[e-2])/(2p), C the moment origin")
     R.rule("S-LEAD", "each table axis is incremented with one centre throughout; the order axis with the moment origin")
     R.rule("AXTYPE-K", "the kernel is well-typed in the axis-provenance domain")
@@ -48,7 +51,7 @@ def run(repo, R):
         subs = sub_extractor(ex, "_compute_multipole_moment_integrals_intermediate")
         if len(subs) != 1:
             raise AnalysisError("STENCIL", "the moment kernel does not reach the 1-D Obara-Saika table exactly once", f.where())
-        info = check_moment_kernel(repo, subs[0].func, None, findings, ex=subs[0], only=("Se",))
+        info = check_moment_kernel(repo, subs[0].func, None, findings, ex=subs[0])
         roles = info["axis_role"]
         if 0 in roles and roles[0] != "e":
             findings.append(Finding("S-LEAD", None, f"table axis 0 (selected by the order triples) is driven by the centre of `{roles[0]}`", construct="order axis"))
@@ -66,8 +69,8 @@ def run(repo, R):
                                     expected=str(want), found=str(got), construct="np.zeros(table shape)"))
         nse = len([s for s in info["stores"] if s[1] == "Se"])
         for s, name, r in info["stores"]:
-            if name == "Se" and not [fd for fd in findings if fd.store is s]:
-                R.ok("Se", s.func.site, s.text, detail="conforms")
+            if not [fd for fd in findings if fd.store is s]:
+                R.ok(name, s.func.site, s.text, detail="conforms")
         if not [fd for fd in findings if fd.rule in ("K", "LIN", "GATHER", "SIZE")]:
             R.ok("K", f.site, "returns (M_1, L_1, M_2, L_2, orders)")
             R.ok("LIN", f.site, "coef_s * NPC_s contracted over K_s once per shell")
